@@ -204,3 +204,15 @@ CHECKS["C03"] = dict(
           "lexicographical_compare. evaluations = algorithm runs; distinct_nontrivial = (view, data) cases with >= 2 viewed scalars."),
     assumptions=["reference = libstdc++ algorithm on std::vector<std::vector<int>> (a scalar is a 1-vector; rows compare lexicographically)", "second range of two-range algorithms is the same view of a second root", "g++ 12 -O0 ASan+UBSan, assertions enabled"],
 )
+
+CHECKS["C19"] = dict(
+    title="index bases are transparent", level="model_checking", engine="E1",
+    claim=("The E1 view-state search is run from re-based roots (array_ref over explicit index extensions with firsts in {-1,0,2} per dimension, D=1..4) with reindexed/blocked/stenciled added to the alphabet; every "
+           "index-valued argument is expressed in the view's own reported index space and the model is the positionally identical zero-based twin. At every state: element addresses position-wise through all access "
+           "paths, begin/end and elements() laws, +view (values and extensions), equality of a copy, and assignment into the same view of a twin root (whole-buffer comparison)."),
+    jobs=lambda tier: ranks_jobs("basemc", "san-nd", tier, shards_thorough=2),
+    rule=("E1 breadth-first search (depth 2 quick / 3 thorough) with the model adopting the reported first index of every non-empty result dimension (the index base of a RESULT is not documented) while sizes, "
+          "strides and element identity are checked position-wise; assertions are disabled in this build (-DNDEBUG + ASan/UBSan) so that the reference model, not the library's own asserts, is the oracle; violating "
+          "states are not expanded. distinct_nontrivial = non-empty states with >= 2 elements."),
+    assumptions=["reference model engine/view_model.hpp with per-dimension index base", "member_cast/scale on re-based layouts asserts offset==0 (TODO in the library): not generated", "g++ 12 -O0 -DNDEBUG ASan+UBSan"],
+)
